@@ -705,15 +705,21 @@ class TransferManager(BaseManager):
         # one after the other and the file needs to exist before the next path
         # gets calculated, otherwise they end up writing to the same file
         async with self._download_path_lock:
-            if transfer.local_path is None:
+            local_path = transfer.local_path
+            if local_path is None:
                 download_path, file_path = self._shares_manager.calculate_download_path(transfer.remote_path)
-                transfer.local_path = os.path.join(download_path, file_path)
+                local_path = os.path.join(download_path, file_path)
 
-            path, _ = os.path.split(transfer.local_path)
+            path, _ = os.path.split(local_path)
             await self._shares_manager.create_directory(path)
 
-            async with aiofiles.open(transfer.local_path, mode='ab'):
+            async with aiofiles.open(local_path, mode='ab'):
                 pass
+
+            # Only keep the path once the file exists: a download that gets
+            # paused or fails before this point does not own the path, the next
+            # download with the same name will be given it
+            transfer.local_path = local_path
 
     async def _calculate_offset(self, transfer: Transfer) -> int:
         """Calculates the offset when downloading a file by inspecting the file
